@@ -164,6 +164,34 @@ def r3(ctx):
         ctx.ob("R3", f"{name}: every path on the remote side issues the command", esc is None, func=f, node=f.node, instance=f"{name}:always-issues",
                message=f"{name} can return without issuing its remote command (a short cut that the local filesystem operation does not have)",
                witness=g.describe(esc) if esc else [])
+    # walk() descends through _make_child_relpath(name): the child's name must reach the returned path
+    mk = c.methods.get("_make_child_relpath")
+    ctx.require(mk is not None, "C24.R3: _make_child_relpath vanished")
+    prm = [a_ for a_ in mk.params if a_ != "self"]
+    rets = [n for n in mk.body_nodes() if isinstance(n, ast.Return) and n.value is not None]
+    flows = False
+    for r_ in rets:
+        for o in origins(mk, r_.value):
+            names = {x.id for x in ast.walk(o) if isinstance(x, ast.Name)}
+            pend = set(names)
+            seen = set()
+            while pend:
+                nm = pend.pop()
+                if nm in seen:
+                    continue
+                seen.add(nm)
+                if nm in prm:
+                    flows = True
+                from ..dataflow import defs_of as _defs
+
+                for d in _defs(mk, nm):
+                    if d.value is not None:
+                        pend |= {x.id for x in ast.walk(d.value) if isinstance(x, ast.Name)}
+    ctx.ob("R3", "_make_child_relpath builds the child path from the child's name", flows and len(prm) == 1, func=mk, node=mk.node, instance="_make_child_relpath:uses-name",
+           message="_make_child_relpath ignores the child name and returns the directory itself: walk() visits the same directory for ever")
+    wk = c.methods.get("walk")
+    uses = wk is not None and any(isinstance(x.func, ast.Attribute) and x.func.attr == "_make_child_relpath" for x in wk.calls())
+    ctx.ob("R3", "walk descends into sub-directories through the child-path helper", bool(uses), func=wk or mk, node=(wk or mk).node, instance="walk:descends")
     # mkdir: -p exactly when parents or exist_ok
     f = c.methods["mkdir"]
     ok = False
@@ -321,6 +349,7 @@ VARIANTS = [
     V("mkdir delegation drops exist_ok", FILE, f"{CLS}.mkdir", "parents=parents, exist_ok=exist_ok)", "parents=parents)", "R4"),
     V("write_text skips empty content", FILE, f"{CLS}.write_text", "if not isinstance(data, str):", "if not data:\n            return 0\n        if not isinstance(data, str):", "R3"),
     V("glob guard tests for a regular file", FILE, f"{CLS}.glob", "'-e'", "'-f'", "R3"),
+    V("_make_child_relpath ignores the name (S17 revert)", FILE, f"{CLS}._make_child_relpath", "self._tail + [part]", "self._tail", "R3"),
     V("_size parses unguarded", FILE, f"{MOD}._size", "int(result) if result.isdigit() else 0", "int(result or 0)", "R5"),
     # benign
     V("exists: quote into a local first", FILE, f"{CLS}.exists", "return await self._test(command=['-e', shlex.quote(self.__str__())])", "q = shlex.quote(str(self))\n        return await self._test(command=['-e', q])", None),
